@@ -209,6 +209,16 @@ class Check:
                 r_['dir_listed'] = True
                 if all(o['dir'] == r_['dir'] and o['tag'] == r_.get('tag') for o in r_['outs']) and rx.random() < 0.5:
                     r_['dir_listed'] = False           # one install_dir / install_tag for all the outputs
+        # an install_emptydir() with a mode of its own for a directory that exists by the time empty directories are made:
+        # another rule installs into it (or below it), or an earlier install_emptydir() named a child of it
+        if rx.random() < 0.35:
+            hosts = [r_['dir'] for r_ in spec['rules'] if r_['kind'] == 'subdir'] + \
+                    [os.path.dirname(r_['path']) for r_ in spec['rules'] if r_['kind'] == 'emptydir' and os.path.dirname(r_['path']) not in ('', '/', 'share', 'var', 'var/lib', '/var', '/var/spool')]
+            taken = {r_['path'] for r_ in spec['rules'] if r_['kind'] == 'emptydir'}
+            hosts = [h for h in hosts if h not in taken and h not in ('share/common',)]
+            if hosts:
+                spec['rules'].append({'kind': 'emptydir', 'sub': False, 'id': 400, 'path': rx.choice(sorted(set(hosts))),
+                                      'mode': rx.choice(['rwx------', 'rwxrwx---', 'rwxr-x--x']), 'tag': None, 'host': True})
         if rx.random() < 0.3:
             for k in range(rx.randint(1, 2)):
                 i = 300 + k
@@ -712,6 +722,9 @@ class Check:
             # (b) exactness
             fresh = not any(p not in pre for p in before)
             explicit = self.explicit_dirs(spec, destdir)
+            # (only the install_emptydir() rules this step selects: a directory another selected rule installs into keeps its mode)
+            explicit = {p for p in explicit if any(p in IR.expected_tree({'prefix': spec['prefix'], 'umask': spec['umask'], 'rules': [r_]}, destdir, opts, ambient).items
+                                                   for r_ in spec['rules'] if r_['kind'] == 'emptydir' and r_.get('mode'))}
             want: T.Dict[str, T.Tuple[T.Any, ...]] = dict(before)      # whatever is there stays (pre-existing files, earlier installs)
             for p, it in exp.items():
                 if it[0] == 'dir' and p in before and before[p][0] == 'dir' and p not in explicit:
